@@ -62,6 +62,18 @@ func (m PosMatcher) Match(v reflect.Value, d data.Data, _ Region) (data.Data, bo
 	return d, ok
 }
 
+// optionalPosMatcher matches the position of a token that Go's syntax allows
+// to be left out without changing what the code says. It records the
+// position if the token is there in both the patch and the file.
+type optionalPosMatcher struct{ PosMatcher }
+
+func (m optionalPosMatcher) Match(v reflect.Value, d data.Data, r Region) (data.Data, bool) {
+	if got := v.Interface().(token.Pos); m.Pos.IsValid() && got.IsValid() {
+		return m.PosMatcher.Match(v, d, r)
+	}
+	return d, true
+}
+
 // PosReplacer replaces token.Pos fields.
 //
 // For valid positions, the replacer will use the previously recorded
